@@ -575,9 +575,16 @@ def run(ck):
         orc.close()
     if orc.p.returncode not in (0, None):
         ck.violation('c-oracle-exited-abnormally', {'rc': orc.p.returncode}, None)
+    # the lifetimes as they reach the kernel END TO END, over eight generations of rekeys (the value handed to create_child_sa is computed in ikesa.py: a base that
+    # drifts from generation to generation is invisible in a call-level comparison)
+    from vf.checks import c15 as c15_
+    for i in range(18 if not ck.thorough() else 360):
+        if ck.mine(i + 3):
+            c15_.rekey_generations(ck, i, prefix='e2e_lifetimes')
 
 
 def verdict(ck):
+    ck.floor('lifetimes of NEWSA requests checked end to end over 8 generations of rekeys', ck.counters['e2e_lifetimes.lifetimes_checked'], 400)
     ck.floor('requests issued right after a request whose verdict was lost in recv()', ck.counters['reverse.reply.requests_after_a_lost_verdict'], 100)
     ck.floor('refusals of the kernel whose reply was lost in recv() (ENOBUFS, EAGAIN, ENOMEM)', ck.counters['reverse.reply.verdict_lost_in_recv.refusal'], 60)
     c = ck.counters
